@@ -279,6 +279,25 @@ def private_state(w):
 # ---------------------------------------------------------------------------
 # the query alphabet
 
+_KERNELS = {}
+
+
+def user_kernels():
+    """Two small user kernel files with the SAME file name in different folders (different pore widths)."""
+    if 'paths' not in _KERNELS:
+        from pygaps.data import KERNELS
+        raw = pandas.read_csv(str(KERNELS['DFT-N2-77K-carbon-slit']), index_col=0)
+        paths = []
+        for i, cols in enumerate(([8, 20, 32, 44, 56], [12, 24, 36, 48, 60])):
+            d = os.path.join(core.scratch(), f'c04-kernels-{i}')
+            os.makedirs(d, exist_ok=True)
+            f = os.path.join(d, 'carbon-slit.csv')
+            raw[list(raw.columns[cols])].to_csv(f)
+            paths.append(f)
+        _KERNELS['paths'] = paths
+    return _KERNELS['paths']
+
+
 def build_queries(tier):
     import pygaps.characterisation as pgc
     import pygaps.iast as pgi
@@ -379,6 +398,9 @@ def build_queries(tier):
     add('reverse_iast', lambda w: pgi.reverse_iast([w['mL'], w['mT']], [0.5, 0.5], 0.6))
     add('iast_binary_svp', lambda w: pgi.iast_binary_svp([w['mL'], w['mT']], [0.5, 0.5], [0.2, 0.4, 0.8]))
     add('iast_binary_vle', lambda w: pgi.iast_binary_vle([w['mL'], w['mL2']], 0.5, npoints=4))
+    # kernels given by path: two files with the same name are two kernels
+    add('psd_dft(user kernel A)', lambda w: pgc.psd_dft(w['p'], kernel=user_kernels()[0], branch='ads', p_limits=(0.06, 0.85), bspline_order=0), True)
+    add('psd_dft(user kernel B, same file name)', lambda w: pgc.psd_dft(w['p'], kernel=user_kernels()[1], branch='ads', p_limits=(0.06, 0.85), bspline_order=0), True)
     # error paths: a query that is refused (possibly after it started working) must leave everything untouched as well
     add('ERR whittaker(point, unknown model)', lambda w: pgc.enthalpy_sorption_whittaker(w['pco2'], model='Tooth'))
     add('ERR whittaker(point, Henry)', lambda w: pgc.enthalpy_sorption_whittaker(w['pco2'], model='Henry'))
@@ -517,7 +539,7 @@ def run(ctx):
                          'spreading_pressure_at[ads,None]@below', 'spreading_pressure_at[ads,None]@above', 'N2.liquid_density(77.355)',
                          'N2.saturation_pressure(77.355)', 'model_iso(Langmuir)', 'iast_point(points)', 'iso_id', 'area_BET',
                          't_plot(Halsey)', 'mT.spreading_pressure_at', 'pressure(relative)', 'psd_mesoporous(BJH)', 'to_json',
-                         'convert-free unit read: loading(volume_liquid)', 'whittaker(model)') if n in pure_names]
+                         'convert-free unit read: loading(volume_liquid)', 'whittaker(model)', 'psd_dft(user kernel A)') if n in pure_names]
     jobs = []
     if ctx.quick:
         sub = [n for n in SUB if n in pure_names]
